@@ -14,6 +14,12 @@ Theorem C16_roundtrip_hs_tz_via_s_d :
        0 < hs -> 0 < tz -> (let '(s, d) := vt_hs_tz_to_s_d RN hs tz in vt_s_d_to_hs_tz RN s d) = (hs, tz).
 Proof. exact (@roundtrip_hs_tz_via_s_d). Qed.
 
+(* hs_tz_to_s_d(s_d_to_hs_tz(s,d)) = (s,d) on the positive quadrant (all six compositions are now proved) *)
+Theorem C16_roundtrip_s_d_via_hs_tz :
+  forall s d : R,
+       0 < s -> 0 < d -> (let '(hs, tz) := vt_s_d_to_hs_tz RN s d in vt_hs_tz_to_s_d RN hs tz) = (s, d).
+Proof. exact (@roundtrip_s_d_via_hs_tz). Qed.
+
 (* hs_s_to_hs_tz(hs_tz_to_hs_s(hs,tz)) = (hs,tz) *)
 Theorem C16_roundtrip_hs_tz_via_hs_s :
   forall hs tz : R,
@@ -32,7 +38,7 @@ Theorem C16_roundtrip_hs_tz_via_s_tz :
        0 < hs -> 0 < tz -> (let '(s, t) := vt_hs_tz_to_s_tz RN hs tz in vt_s_tz_to_hs_tz RN s t) = (hs, tz).
 Proof. exact (@roundtrip_hs_tz_via_s_tz). Qed.
 
-(* hs_tz_to_s_tz(s_tz_to_hs_tz(s,tz)) = (s,tz).  (The sixth composition, (s,d) -> (hs,tz) -> (s,d), is validated numerically only.) *)
+(* hs_tz_to_s_tz(s_tz_to_hs_tz(s,tz)) = (s,tz) *)
 Theorem C16_roundtrip_s_tz_via_hs_tz :
   forall s tz : R,
        0 < s -> 0 < tz -> (let '(h, t) := vt_s_tz_to_hs_tz RN s tz in vt_hs_tz_to_s_tz RN h t) = (s, tz).
@@ -108,6 +114,7 @@ Example C16_nonvacuous : 0 < factor /\ fst (pd_get_Windmeier_EW_Hs_S_transform R
 Proof. split; [exact factor_pos|reflexivity]. Qed.
 
 Print Assumptions C16_roundtrip_hs_tz_via_s_d.
+Print Assumptions C16_roundtrip_s_d_via_hs_tz.
 Print Assumptions C16_roundtrip_hs_tz_via_hs_s.
 Print Assumptions C16_roundtrip_hs_s_via_hs_tz.
 Print Assumptions C16_roundtrip_hs_tz_via_s_tz.
